@@ -41,6 +41,14 @@ pub enum PTy {
     /// further mentions of the dependency's own type parameter `D` (named-generic deps only)
     DepsOpt,
     DepsVec,
+    /// `P::Out`: the only mention of type parameter `P` is through an associated type (nothing infers `P` from it)
+    Proj,
+    /// `&(dyn for<'h> LtLabel<'h> + Sync)`: an elided reference to a type that binds a lifetime of its own
+    RefDynHrtb,
+}
+
+fn is_elided_ref(p: &PTy) -> bool {
+    matches!(p, PTy::RefElided | PTy::RefDynHrtb)
 }
 
 #[derive(Clone, Debug, PartialEq)]
@@ -103,6 +111,8 @@ pub struct Sig {
     /// a type parameter `P` and a const parameter `K` that appear in no parameter type and not in the return type:
     /// callers name them (turbofish / trait arguments), nothing can infer them
     pub phantom: bool,
+    /// with `phantom`: `P: Proj` is mentioned, but only as `P::Out` in a parameter type (and there is no `K`)
+    pub phantom_proj: bool,
 }
 
 const LT: [&str; 3] = ["'a", "'b", "'c"];
@@ -146,6 +156,8 @@ impl Sig {
             PTy::SliceNamed(l) => format!("&{} [u8]", LT[*l]),
             PTy::DepsOpt => "Option<D>".into(),
             PTy::DepsVec => "Vec<D>".into(),
+            PTy::Proj => "P::Out".into(),
+            PTy::RefDynHrtb => "&(dyn for<'h> LtLabel<'h> + Sync)".into(),
         }
     }
 
@@ -273,7 +285,9 @@ impl Sig {
         if self.has_const {
             g.push("const N: usize".into());
         }
-        if self.phantom {
+        if self.phantom && self.phantom_proj {
+            g.push("P: Proj".into());
+        } else if self.phantom {
             g.push("P: Default".into());
             g.push("const K: usize".into());
         }
@@ -344,12 +358,14 @@ impl Sig {
     fn pty_inst(&self, p: &PTy, i: usize, elided_as: &dyn Fn(usize) -> String) -> String {
         match p {
             PTy::RefElided => format!("&{} str", elided_as(i)),
+            PTy::RefDynHrtb => format!("&{} (dyn for<'h> LtLabel<'h> + Sync)", elided_as(i)),
             PTy::Gen => "i64".into(),
             PTy::RefGenNamed(l) => format!("&{} i64", LT[*l]),
             PTy::ArrConst => "[u8; 3]".into(),
             PTy::ImplFn => "fn(i32) -> i32".into(),
             PTy::DepsOpt => "Option<A>".into(),
             PTy::DepsVec => "Vec<A>".into(),
+            PTy::Proj => "u8".into(),
             other => self.pty_src(other),
         }
     }
@@ -362,7 +378,7 @@ impl Sig {
             RTy::FromDeps => format!("&{deps_lt} str"),
             RTy::FromArg(l) | RTy::FromNamedArgElided(l) => format!("&{} str", LT[*l]),
             RTy::FromElidedArg => {
-                let i = self.params.iter().position(|p| *p == PTy::RefElided).unwrap_or(0);
+                let i = self.params.iter().position(is_elided_ref).unwrap_or(0);
                 format!("&{} str", elided_as(i))
             }
             RTy::Gen => "i64".into(),
@@ -406,7 +422,9 @@ impl Sig {
         }
         if self.phantom {
             a.push("u16");
-            a.push("7");
+            if !self.phantom_proj {
+                a.push("7");
+            }
         }
         if a.is_empty() {
             String::new()
@@ -434,7 +452,7 @@ impl Sig {
         }
         let elided = |i: usize| format!("'e{i}");
         for (i, p) in self.params.iter().enumerate() {
-            if *p == PTy::RefElided {
+            if is_elided_ref(p) {
                 hr.push(elided(i));
             }
         }
@@ -491,7 +509,7 @@ impl Sig {
         }
         let elided = |i: usize| format!("'e{i}");
         for (i, p) in self.params.iter().enumerate() {
-            if *p == PTy::RefElided {
+            if is_elided_ref(p) {
                 g.push(elided(i));
             }
         }
@@ -559,7 +577,7 @@ pub fn gen_sig(t: &mut Tape, excl: &Excl) -> Sig {
     let deps_has_ref = matches!(deps, Deps::RefGeneric | Deps::RefImpl | Deps::ConcreteRef | Deps::ConcreteRefNamed);
     let mut used_elided = false;
     for _ in 0..n {
-        let p = match t.weighted(&[4, 2, 2, 3, 1, 2, 1, 1, 1, 1, 1]) {
+        let p = match t.weighted(&[4, 2, 2, 3, 1, 2, 1, 1, 1, 1, 1, 1]) {
             0 => PTy::I32,
             1 => PTy::Owned,
             2 => PTy::RefElided,
@@ -571,6 +589,7 @@ pub fn gen_sig(t: &mut Tape, excl: &Excl) -> Sig {
             8 => PTy::ImplFn,
             9 => PTy::BoxDyn,
             10 if n_lifetimes > 0 => PTy::SliceNamed(t.choose(n_lifetimes)),
+            11 => PTy::RefDynHrtb,
             _ => PTy::I32,
         };
         if p == PTy::RefElided {
@@ -588,7 +607,7 @@ pub fn gen_sig(t: &mut Tape, excl: &Excl) -> Sig {
         params.insert(at, p);
     }
     let has_gen = params.iter().any(|p| matches!(p, PTy::Gen | PTy::RefGenNamed(_)));
-    let n_elided = params.iter().filter(|p| **p == PTy::RefElided).count();
+    let n_elided = params.iter().filter(|p| is_elided_ref(p)).count();
     // return type: only relations that are valid in the ORIGINAL fn
     let mut rets = vec![RTy::Unit, RTy::I32, RTy::Owned];
     let named_ref_args: Vec<usize> = params.iter().filter_map(|p| if let PTy::RefNamed(l) = p { Some(*l) } else { None }).collect();
@@ -628,7 +647,7 @@ pub fn gen_sig(t: &mut Tape, excl: &Excl) -> Sig {
         has_gen = true;
     }
     let has_const = params.iter().any(|p| *p == PTy::ArrConst);
-    Sig {
+    let mut sig = Sig {
         concrete_ty: *t.pick(&["Conf", "Conf", "inner::PConf", "GConf<i32>", "self::inner::PConf", "<Sel as HasConf>::C", "::std::string::String"]),
         deps,
         bounds,
@@ -655,7 +674,12 @@ pub fn gen_sig(t: &mut Tape, excl: &Excl) -> Sig {
         outlives_inline: t.flip(),
         gen_mentions_deps: t.chance(1, 4),
         phantom: t.chance(1, 6),
+        phantom_proj: t.chance(1, 3),
+    };
+    if sig.phantom && sig.phantom_proj {
+        sig.params.push(PTy::Proj);
     }
+    sig
 }
 
 /// classes excluded by construction because they are listed as open known findings
@@ -680,7 +704,7 @@ pub struct Case {
 fn header() -> String {
     let mut s = String::from(
         "#![allow(warnings)]\n#![deny(unsafe_op_in_unsafe_fn)]\nuse ::core::marker::PhantomData;\nuse ::core::future::Future;\n\
-         pub struct Sel;\npub trait HasConf { type C; }\nimpl HasConf for Sel { type C = Conf; }\npub trait Rel<X> {}\nimpl<X> Rel<X> for i64 {}\n\
+         pub struct Sel;\npub trait HasConf { type C; }\nimpl HasConf for Sel { type C = Conf; }\npub trait Rel<X> {}\nimpl<X> Rel<X> for i64 {}\npub trait Proj { type Out: Send + Sync + Default; }\nimpl Proj for u16 { type Out = u8; }\n\
          pub struct App;\npub struct Conf { pub s: String }\npub mod inner { pub struct PConf { pub s: String } }\npub struct GConf<T> { pub s: String, pub t: T }\npub type A = ::entrait::Impl<App>;\n\
          fn out<F: Future>(_: &F) -> PhantomData<F::Output> { PhantomData }\nfn is_send<T: Send>(_: &T) {}\n\
          pub trait LtLabel<'l> {}\nimpl<'l> LtLabel<'l> for (u8, i8) {}\nimpl<'l> LtLabel<'l> for [u8; 2] {}\nimpl<'l> LtLabel<'l> for fn(u8) -> u8 {}\n",
@@ -795,7 +819,9 @@ pub fn gen_case(t: &mut Tape, excl: &Excl) -> Case {
     if sig.deps_maybe_sized {
         classes.push("deps_bound_?Sized");
     }
-    if sig.phantom {
+    if sig.phantom && sig.phantom_proj {
+        classes.push("type_parameter_mentioned_only_through_an_associated_type");
+    } else if sig.phantom {
         classes.push("type_and_const_parameters_not_inferable_from_the_call");
     }
     if sig.has_gen && sig.gen_mentions_deps && !sig.deps_maybe_sized && matches!(sig.deps, Deps::RefGeneric | Deps::ValGeneric) {
@@ -809,6 +835,12 @@ pub fn gen_case(t: &mut Tape, excl: &Excl) -> Case {
     }
     if sig.deps_lifetime_bound {
         classes.push("deps_lifetime_bound");
+    }
+    if sig.params.contains(&PTy::RefDynHrtb) {
+        classes.push("parameter_type_with_a_higher_ranked_lifetime");
+        if sig.ret == RTy::FromElidedArg {
+            classes.push("elided_output_of_the_single_elided_input_next_to_a_higher_ranked_lifetime");
+        }
     }
     match sig.deps {
         Deps::ValGeneric | Deps::ValImpl | Deps::ConcreteVal => classes.push("by_value_deps"),
